@@ -425,18 +425,31 @@ def class_case(case):
     hom = bc_flags(ka)[0] and (kb is None or bc_flags(kb)[0])
     same_bc = kb is None
     # ---- the equation (fresh specification objects for every consumer)
-    kw = dict(P)
-    if info["two"] is None:
-        kw["bc"] = bc_spec(geo, ka)[0]
-    else:
-        a1, a2 = info["two"]
-        kw[a1] = bc_spec(geo, ka)[0]
-        if kb is not None:
-            kw[a2] = bc_spec(geo, kb)[0]
-        elif name == "CahnHilliardPDE":
-            kw[a2] = bc_spec(geo, ka)[0]  # bc_mu has its own default; "same BC" means the same for both
-        # KS / SH: bc_lap=None means "the same as bc"
-    eq = cls(**kw)
+    # Expression conditions given as a dict are re-parsed by sympy on every call of the field API
+    # (54 ms per evolution_rate): for them the equation under exhaustive test receives the conditions
+    # parsed once (a BoundariesList is a documented form of ``bc``), and a second equation built from the
+    # dict is compared with it on the zero and generic states (the conversion does not depend on the state).
+    def given(kind, parse):
+        spec_ = bc_spec(geo, kind)[0]
+        return grid.get_boundary_conditions(spec_) if (parse and bc_flags(kind)[1]) else spec_
+
+    def make_eq(parse):
+        kw_ = dict(P)
+        if info["two"] is None:
+            kw_["bc"] = given(ka, parse)
+        else:
+            a1, a2 = info["two"]
+            kw_[a1] = given(ka, parse)
+            if kb is not None:
+                kw_[a2] = given(kb, parse)
+            elif name == "CahnHilliardPDE":
+                kw_[a2] = given(ka, parse)  # bc_mu has its own default; "same BC" means the same for both
+            # KS / SH: bc_lap=None means "the same as bc"
+        return cls(**kw_), kw_
+
+    eq, kw = make_eq(True)
+    timedep = bc_flags(ka)[1] or (kb is not None and bc_flags(kb)[1])
+    eq_dict = make_eq(False)[0] if timedep else None
     # ---- reference conditions (complete specification, parsed once)
     B1 = grid.get_boundary_conditions(bc_spec(geo, ka)[1])
     B2 = grid.get_boundary_conditions(bc_spec(geo, kb)[1]) if kb is not None else B1
@@ -531,6 +544,12 @@ def class_case(case):
                 n += 1
                 if not close(val, r1, tol):
                     bad(f"{b} rhs differs from evolution_rate", label, p, t, val, r1, tol)
+            if eq_dict is not None and (label.startswith("generic") or label in ("det0", "replay")):
+                val = eq_dict.evolution_rate(state.copy(), t).data
+                n += 1
+                if not close(val, r1, tol):
+                    bad("evolution_rate with conditions given as dict differs from the same conditions parsed once",
+                        label, p, t, val, r1, tol)
             tol3 = (1e-10 + 2 * rel3) * scale
             for b, f in rhs3.items():
                 val = f(state.data.copy(), t)
